@@ -182,7 +182,9 @@ type namedString string
 
 func scalarGVs() []GV {
 	var g []GV
-	add := func(kind, name string, mk func() interface{}) { g = append(g, GV{Name: kind + ":" + name, Kind: kind, Mk: mk}) }
+	add := func(kind, name string, mk func() interface{}) {
+		g = append(g, GV{Name: kind + ":" + name, Kind: kind, Mk: mk})
+	}
 	add("nil", "nil", func() interface{} { return nil })
 	for _, s := range []string{"", "s", "é世", "a\x00b", "\xff", "12"} {
 		s := s
@@ -235,7 +237,9 @@ func scalarGVs() []GV {
 
 func unsupportedGVs() []GV {
 	var g []GV
-	add := func(kind string, mk func() interface{}) { g = append(g, GV{Name: "unsupported:" + kind, Kind: kind, Mk: mk}) }
+	add := func(kind string, mk func() interface{}) {
+		g = append(g, GV{Name: "unsupported:" + kind, Kind: kind, Mk: mk})
+	}
 	add("int8", func() interface{} { return int8(1) })
 	add("int16", func() interface{} { return int16(1) })
 	add("uint", func() interface{} { return uint(1) })
@@ -498,7 +502,7 @@ func runConvert(name string) (fails []fail, obs string) {
 			if s.Remove("a") {
 				add("convert/from/"+gv.Kind, "Script.Add failed but the variable exists")
 			}
-			_ = s.Add("b", 5)
+			_ = s.Add("b", &tengo.Int{Value: 5}) // scaffolding by Object: independent of the conversions under test
 			c, e := s.Compile()
 			if e != nil {
 				add("convert/from/"+gv.Kind, "Compile after a refused Add failed: "+e.Error())
@@ -712,7 +716,7 @@ func runLimits() (fails []fail, obs string) {
 			atomic.AddInt64(&apiCalls, 4)
 			s := tengo.NewScript([]byte("out := 1"))
 			e1 := s.Add("a", c.x)
-			_ = s.Add("b", 1)
+			_ = s.Add("b", &tengo.Int{Value: 1})
 			cc, e := s.Compile()
 			if e != nil {
 				add(c.kind, "Compile failed: "+e.Error())
